@@ -104,6 +104,15 @@ def at_scale_case(ctx, g, rng):
         else:
             m[r.prefix] = r.psyn[0] if r.psyn else "only" + str(i)  # onto its own synonym
     call(curies.remap_curie_prefixes, c, m)
+    # a renaming chain far longer than any recursion limit, written head first and tail first: one known record handed
+    # along 1500 new names
+    k = 1500
+    head = some[0].prefix
+    names = [head] + [f"link{i:04d}" for i in range(k)]
+    chain_m = dict(zip(names, names[1:]))
+    call(curies.remap_curie_prefixes, c, chain_m)
+    call(curies.remap_curie_prefixes, c, dict(reversed(list(chain_m.items()))))
+    S.counters["wl:long-renaming-chains"] += 2
     S.counters[f"wl:at-scale:n{n}"] += 1
     probe.note_key(f"at-scale:n{n}", True)
 
